@@ -249,10 +249,13 @@ Definition wit_flush_clear : list sitem :=
 Definition wit_flush_run : res unit * world :=
   run wit_flush_cfg (mkPlan (FTransient 4) None true) 9%N wit_flush_clear [] [VStep false SNone; VBind false].
 
-Lemma wit_flush_ok : fst wit_flush_run = ROk tt.
+(* evaluated once by the VM; nothing below unfolds the run symbolically *)
+Definition wit_flush_world : world := Eval vm_compute in snd wit_flush_run.
+
+Lemma wit_flush_run_eq : wit_flush_run = (ROk tt, wit_flush_world).
 Proof. vm_compute. reflexivity. Qed.
 
-Lemma wit_flush_failed_write : In (EWrite WSuccess false) (w_trace (snd wit_flush_run)).
+Lemma wit_flush_failed_write : In (EWrite WSuccess false) (w_trace wit_flush_world).
 Proof. vm_compute. tauto. Qed.
 
 Lemma nil_error_all_ok_refuted :
@@ -260,10 +263,10 @@ Lemma nil_error_all_ok_refuted :
     run cfg pl bits clear tls calls = (ROk tt, w) /\ ~ all_steps_ok (fun _ => False) (w_trace w).
 Proof.
   exists wit_flush_cfg, (mkPlan (FTransient 4) None true), 9%N, wit_flush_clear, [], [VStep false SNone; VBind false],
-         (snd wit_flush_run).
+         wit_flush_world.
   split.
-  - change (wit_flush_run = (ROk tt, snd wit_flush_run)).
-    rewrite (surjective_pairing wit_flush_run) at 1. rewrite wit_flush_ok. reflexivity.
+  - exact wit_flush_run_eq.
   - intro HF. unfold all_steps_ok in HF. rewrite Forall_forall in HF.
-    specialize (HF _ wit_flush_failed_write). cbn in HF. destruct HF as [HF|HF]; [discriminate | exact HF].
+    pose proof (HF _ wit_flush_failed_write) as HC. unfold clean in HC.
+    destruct HC as [HC|HC]; [discriminate | exact HC].
 Qed.
